@@ -1603,6 +1603,7 @@ func (s *Store) VerifyLeader() (retErr error) {
 	}
 	startT := time.Now()
 	defer func() {
+		vhook.Trace(s.raftID, "vl.done", "ok", retErr == nil)
 		if retErr == nil {
 			stats.Add(numVerifyLeader, 1)
 			recordDuration(verifyLeaderDuration, startT)
